@@ -335,7 +335,7 @@ def judge(rec, txns, hostile, rnd, tmp, with_views):
         check_html_data(rec, data, stats, txns, want, case, with_views)
         # ---- the report is written AGAIN to the same path after the data changed (two amounts swapped: the text keeps its length):
         #      what is on disk afterwards is the new analysis, not the old file
-        if embedded and not with_views and rnd.random() < .35:
+        if not with_views and rnd.random() < .35:
             pairs = [(i, j) for i in range(len(txns)) for j in range(i + 1, len(txns))
                      if txns[i]['amount'] != txns[j]['amount'] and len(repr(txns[i]['amount'])) == len(repr(txns[j]['amount']))
                      and (txns[i]['amount'] < 0) == (txns[j]['amount'] < 0)]
@@ -347,8 +347,17 @@ def judge(rec, txns, hostile, rnd, tmp, with_views):
                 want2 = {'income': st2['income_total'], 'spending': st2['spending_total'], 'credits': st2['credits_total'], 'cash_flow': st2['cash_flow'],
                          'transfers_in': st2['transfers_in'], 'transfers_out': st2['transfers_out'], 'transfers_net': st2['transfers_net']}
                 try:
-                    A.write_summary_file_vue(st2, path, year=2025, currency_format=cur, sources=sorted({t['source'] for t in txns}), embedded_html=True)
-                    d2, err = extract_data(open(path, encoding='utf-8').read())
+                    A.write_summary_file_vue(st2, path, year=2025, currency_format=cur, sources=sorted({t['source'] for t in txns}), embedded_html=embedded)
+                    if embedded:
+                        d2, err = extract_data(open(path, encoding='utf-8').read())
+                    else:
+                        # (the figures live in a file of their own next to the page: it is written anew as well)
+                        rec.count('external_data_rewrites_to_same_folder')
+                        try:
+                            body2 = open(os.path.join(out, 'spending_data.js'), encoding='utf-8').read().strip()
+                            d2, err = json.loads(body2[len('window.spendingData ='):].rstrip(';')), None
+                        except Exception as e2:
+                            d2, err = None, f'{type(e2).__name__}: {e2}'
                     rec.count('html_rewrites_to_same_path')
                     if err:
                         rec.violation('html-data-does-not-decode:rewrite', err, case)
